@@ -27,7 +27,8 @@ CONSTANTS MaxSegs,    \* longest request path, in segments
           FullLeadSegs, \* paths of up to this many segments are tried with 0, 1 and 2 leading slashes, longer ones with 1
           Pinned,     \* TRUE: _static as in the pinned commit
           Endpoints,  \* registered endpoints, each a tuple of path segments, e.g. <<"api","cmd","run">>
-          EpGET, EpPOST, EpPUT, EpDEL   \* endpoints registered for HttpMethod.GET / POST / PUT / DEL
+          EpGET, EpPOST, EpPUT, EpDEL,  \* endpoints registered for HttpMethod.GET / POST / PUT / DEL
+          SiteHooks   \* which of the site-specific access hooks (DOMAIN Form below) are enumerated
 
 VARIABLE c            \* the case: a static request or an access situation
 vars == <<c>>
@@ -175,9 +176,32 @@ ImplServed(r) ==
 (*                            (b)  ACCESS                                  *)
 HttpMethods == {"GET", "POST", "PUT", "DELETE", "HEAD", "OPTIONS"}
 Transports  == {"tcp", "tls_anon", "tls_cert"}   \* no TLS / TLS without / with a client certificate
-Hooks       == {"default", "raises", "nomodule", "noattr", "empty"}
-                \* dawgie.context.sanction_override: the built-in hook, a hook that raises,
-                \* and three names that cannot be resolved
+FailingHooks == {"raises", "nomodule", "noattr", "empty"}
+                \* dawgie.context.sanction_override: a hook that raises and three names that cannot be resolved
+
+(* Site-specific access hooks.  dawgie.context.sanction_override names any
+   callable (endpoint, cert); nothing makes it answer with a bool.  What a
+   hook call can produce is one of
+       True | some other truthy object | False | some other falsy object | an exception
+   and the meaning of an access hook is "anything that is not truthy denies".
+   A site hook is a POLICY (whom it grants) and a FORM (with which Python
+   values it says yes and no).  The policy modelled is the most liberal one
+   the property leaves room for: everybody may do everything except that a
+   stranger gets no command.  (A hook that itself grants commands to
+   strangers is outside the property.)  The forms pair the usual ways a hook
+   ends: a comparison (True/False), "cert and known(cert)" (None for no
+   certificate), a count of matching grants (0), a matching name or list of
+   matching grants ("" / []). *)
+Truthy == {"True", "one", "str"}                       \* True, 1, "yes"
+Falsy  == {"False", "None", "zero", "estr", "elist"}   \* False, None, 0, "", []
+Form   == [ site_bool  |-> [yes |-> "True", no |-> "False"],
+            site_none  |-> [yes |-> "one",  no |-> "None"],
+            site_zero  |-> [yes |-> "one",  no |-> "zero"],
+            site_estr  |-> [yes |-> "str",  no |-> "estr"],
+            site_elist |-> [yes |-> "str",  no |-> "elist"] ]
+ASSUME SiteHooks \subseteq DOMAIN Form
+ASSUME \A h \in DOMAIN Form : Form[h].yes \in Truthy /\ Form[h].no \in Falsy
+Hooks       == {"default"} \cup FailingHooks \cup SiteHooks
 Situations  == [k : {"access"}, e : Endpoints, m : HttpMethods, certs : BOOLEAN, tr : Transports, hook : Hooks]
 
 (* PROPERTY LEVEL *)
@@ -186,8 +210,13 @@ IsCommand(e) == e[Len(e)] \in CmdWords
 Commands     == { e \in Endpoints : IsCommand(e) }
 HasCert(s)   == s.tr = "tls_cert"
 Stranger(s)  == s.certs /\ ~HasCert(s)            \* certificates configured, none presented
-HookFails(s) == s.hook # "default"
-Denied(s)    == HookFails(s) \/ (Stranger(s) /\ IsCommand(s.e))
+HookFails(s) == s.hook \in FailingHooks
+IsSite(s)    == s.hook \in DOMAIN Form
+SiteGrants(s) == ~(Stranger(s) /\ IsCommand(s.e))                 \* the policy of the site hooks
+Answer(s)    == IF ~IsSite(s) THEN "n/a"                            \* the value the site hook returns when asked
+                ELSE IF SiteGrants(s) THEN Form[s.hook].yes ELSE Form[s.hook].no
+HookSaysNo(s) == IsSite(s) /\ Answer(s) \notin Truthy             \* "anything that is not truthy denies"
+Denied(s)    == HookFails(s) \/ HookSaysNo(s) \/ (Stranger(s) /\ IsCommand(s.e))
 
 (* IMPLEMENTATION SHAPED: twisted Resource.render dispatches on the method
    (HEAD falls back to GET, anything without a render_ method is refused),
@@ -216,8 +245,13 @@ Registered(e, m) == \/ m = "GET" /\ e \in EpGET
                     \/ m = "PUT" /\ e \in EpPUT
                     \/ m = "DELETE" /\ e \in EpDEL
 IsSanctioned(s) == s.certs => (HasCert(s) \/ s.e \in AllAccess)
+(* security.sanctioned hands the value of the hook through untouched (False
+   when the hook cannot be called or raises); __render refuses on `not value` *)
+Sanctioned(s) == IF HookFails(s) THEN FALSE
+                 ELSE IF IsSite(s) THEN Answer(s) \in Truthy
+                 ELSE IsSanctioned(s)
 ImplRan(s) == /\ Routable(s.m)
-              /\ ~HookFails(s) /\ IsSanctioned(s)
+              /\ Sanctioned(s)
               /\ Registered(s.e, Dispatch(s.m))
 
 -----------------------------------------------------------------------------
@@ -232,6 +266,7 @@ C19_StillServes == c.k = "static" => (Plain(c) => ImplServed(c) = RefServed(c))
 StaticConforms  == c.k = "static" => ImplServed(c) = RefServed(c)      \* transcription = reference
 C19_NoCommandForStrangers == c.k = "access" => ((Stranger(c) /\ IsCommand(c.e)) => ~ImplRan(c))
 C19_HookFailClosed        == c.k = "access" => (HookFails(c) => ~ImplRan(c))
+AccessConforms            == c.k = "access" => (Denied(c) => ~ImplRan(c))      \* transcription against the whole access table
 (* the model is not vacuous: something is served, something runs *)
 RefJail == c.k = "static" => Jail(RefServed(c))
 =============================================================================
